@@ -229,3 +229,67 @@ func RunPurge(opt Options, col *ev.Collector, label string) (cases int) {
 	}
 	return cases
 }
+
+// RunInterleaved: two backups interleaved with writes, restore the older, write, take a third
+// backup, then restore the second, the third and the first again (same-named engine files with
+// different content between checkpoints are the threat).
+func RunInterleaved(opt Options, col *ev.Collector, label string, pool [][]string, dl ev.Deadline) (cases int, complete bool) {
+	base := int64(1600000000) * 1e9
+	s := Open(opt)
+	defer s.Destroy()
+	hs := seqs(pool, 3)
+	for hi, h := range hs {
+		if len(h) != 3 {
+			continue
+		}
+		if dl.Hit() {
+			return cases, false
+		}
+		s.Reset()
+		idx := uint64(hi*10 + 1)
+		w := func(k int) { s.Write(base+int64(k)*1e9, h[k]...) }
+		views := map[string]string{}
+		mark := func(name string, index uint64) bool {
+			s.DB.SetLatestSnapIndex(idx) // keep all of this case's checkpoints
+			if err := s.backup(1, index); err != nil {
+				col.Add(ev.Violation{Property: "C14", Signature: "C14|interleaved|backup-failed", What: fmt.Sprintf("%s: history %v backup %s: %v", label, h, name, err)})
+				return false
+			}
+			views[name] = s.view() + s.Dump().Key(skipMetaKey)
+			return true
+		}
+		w(0)
+		if !mark("A", idx) {
+			continue
+		}
+		w(1)
+		if !mark("B", idx+1) {
+			continue
+		}
+		if err := s.DB.Restore(1, idx); err != nil {
+			col.Add(ev.Violation{Property: "C14", Signature: "C14|interleaved|restore-failed", What: fmt.Sprintf("%s: history %v restore A: %v", label, h, err)})
+			continue
+		}
+		w(2)
+		if !mark("C", idx+2) {
+			continue
+		}
+		for _, step := range []struct {
+			name  string
+			index uint64
+		}{{"B", idx + 1}, {"C", idx + 2}, {"A", idx}, {"B", idx + 1}} {
+			cases++
+			if err := s.DB.Restore(1, step.index); err != nil {
+				col.Add(ev.Violation{Property: "C14", Signature: "C14|interleaved|restore-failed", What: fmt.Sprintf("%s: history %v restore %s: %v", label, h, step.name, err)})
+				break
+			}
+			if got := s.view() + s.Dump().Key(skipMetaKey); got != views[step.name] {
+				col.Add(ev.Violation{Property: "C14", Signature: "C14|interleaved|restore-differs-from-state-at-backup",
+					What:   fmt.Sprintf("%s: history %v: backups A (after cmd 1), B (after cmd 2), restore A, cmd 3, backup C; restoring %s shows {%s}, recorded at that backup {%s}", label, h, step.name, s.view(), strings.SplitN(views[step.name], "; \x00", 2)[0]),
+					Replay: map[string]interface{}{"label": label, "history": h, "restore": step.name}})
+				break
+			}
+		}
+	}
+	return cases, true
+}
